@@ -5,6 +5,7 @@ import KcpVerif.Lemmas.SysDrainSnd
 import KcpVerif.Lemmas.SysDrainProbe4
 import KcpVerif.Lemmas.SysDrainFull
 import KcpVerif.Lemmas.SysDrainFull2
+import KcpVerif.Lemmas.SysDrainFair2
 /-! C03 — a stalled reader throttles the sender and transfer resumes afterwards. -/
 namespace KcpVerif.Props
 open KcpVerif KcpVerif.Gen KcpVerif.Kcp KcpVerif.Live
@@ -546,44 +547,49 @@ example : SysC.RunP (SysC.ProbeHyp ⟨SysC.wedgeA.snd_nxt, SysC.wedgeA.conv, 0, 
 
 The history `pre` is arbitrary (`netRun`): it contains the period in which nobody reads at B — B's
 queue fills, it advertises `wnd = 0`, A stops numbering segments (`C03_closed_throttled_no_new_sn`, the
-standstill half) — and any loss of probes and answers.  In the state it leaves the reader is back (B's
-queue is not full from now on), the links are fair, the writer has stopped.  Then the transfer
-completes: the window is re-opened by a probe round (`C03_zero_window_probe_bound`), the queued segments
-are numbered and acknowledged one stage after the other (Lemmas/SysDrainFull.lean).  Hypotheses as in
-`C02_drain_general_partial` (Props/C02.lean): B's queue never full after the return (`QB` in every
-state), head timers within `Rmax`, a send window at A; congestion control may be on or off; stale
-`wnd = 0` frames still on their way to A at the return are covered (they arrive within `D`). -/
+standstill half) — and any loss of probes and answers.  In the state it leaves the reader is back and
+B's queue is not full, from now on the reader reads whenever there is something to read (`QOk`), the
+links are fair, the writer has stopped.  Then the transfer completes: the window is re-opened by a probe
+round (`C03_zero_window_probe_bound`), the queued segments are numbered and acknowledged one stage after
+the other (Lemmas/SysDrainFair2.lean).  Hypotheses as in `C02_drain_general_partial` (Props/C02.lean):
+`SysC.FairHyp` in every state of the run — head timers within `Rmax`, a send window at A,
+`0 < rcv_wnd < 65536`, the reader condition; congestion control may be on or off; stale `wnd = 0`
+frames still on their way to A at the return are covered (they arrive within `D`); B's queue may fill
+up between two reads. -/
 
 open KcpVerif.Sys KcpVerif.SysC in
 theorem C03_resume_partial (A B : Kcp) (D t0 : Nat) (ndA ndB : Bool) (hinit : ConsInit A B)
     (hpw : A.probe_wait = 0) (hIA : A.interval.toNat < 2 ^ 29) (pre : List NetEv)
     (hpre : NetNoWrap A.snd_nxt (Sys.init A B D t0 ndA ndB) pre) (Rmax : Nat) (hR : Rmax + A.interval.toNat < 2 ^ 31)
+    (hqB : (netRun (Sys.init A B D t0 ndA ndB) pre).B.rcv_queue.length <
+      (netRun (Sys.init A B D t0 ndA ndB) pre).B.rcv_wnd.toNat)
     (evs : List Ev) (hns : ∀ ev ∈ evs, isSend ev = false)
-    (hr : RunP (FullHyp ⟨A.snd_nxt, A.conv, 0, 0, 0⟩ Rmax A.interval.toNat) (netRun (Sys.init A B D t0 ndA ndB) pre) evs)
-    (hnow : (netRun (Sys.init A B D t0 ndA ndB) pre).now + (netRun (Sys.init A B D t0 ndA ndB) pre).D + 1 +
-      (netRun (Sys.init A B D t0 ndA ndB) pre).A.waitSnd *
-      (fullStage Rmax A.interval.toNat B.interval.toNat (netRun (Sys.init A B D t0 ndA ndB) pre).D + 1) ≤
+    (hr : RunP (FairHyp ⟨A.snd_nxt, A.conv, 0, 0, 0⟩ Rmax A.interval.toNat) (netRun (Sys.init A B D t0 ndA ndB) pre) evs)
+    (hnow : (netRun (Sys.init A B D t0 ndA ndB) pre).now + (netRun (Sys.init A B D t0 ndA ndB) pre).A.waitSnd *
+      (fairStage Rmax A.interval.toNat B.interval.toNat (netRun (Sys.init A B D t0 ndA ndB) pre).D + 2) ≤
       (Sys.run (netRun (Sys.init A B D t0 ndA ndB) pre) evs).now) :
     (Sys.run (netRun (Sys.init A B D t0 ndA ndB) pre) evs).A.waitSnd = 0 := by
   obtain ⟨hi, hpi⟩ := inv_pinv_netRun (by omega) pre _ (inv_init A B D t0 ndA ndB hinit)
     (pinv_init A B D t0 ndA ndB hpw) hpre
-  exact drain_full_any hIA hR hi hpi (arrOk_netRun pre _ (arrOk_init A B D t0 ndA ndB)) evs hns hr hnow
+  exact drain_fair_all hIA hR _ _ hi hpi (arrOk_netRun pre _ (arrOk_init A B D t0 ndA ndB)) hqB (Nat.le_refl _)
+    evs hns hr hnow
 
-/-! what `C03_resume_partial` does not cover (the full statement stays `C03_resume_full` above):
-a receive window that a burst can fill between two reads (`QB` fails in that
-state; the reader condition `QOk` of `C02_drain_partial` should suffice), and the derivation of `TmrOk`
-from the number of earlier timeouts. -/
+/-! what `C03_resume_partial` does not cover (the full statement stays `C03_resume_full` above): the
+derivation of `TmrOk` from the number of earlier timeouts (the RTO backoff of a segment is not capped in
+kcp-go, so a bound on the head's timer is a hypothesis), and a writer that goes on writing. -/
 
-/-! non-vacuity of `C03_resume_partial`, and the scenario evaluated: B has a receive window of 4; A
-writes six one-byte messages and flushes while nobody reads: B queues four, buffers two, acknowledges all
-six with `wnd = 0`; A processes the ACKs (`rmt_wnd = 0`, probe timer armed for t = 1500) and the writer
-writes three more messages, which stay in the queue.  The reader returns and reads six messages; the
-WINS this schedules is flushed and LOST.  State: `rmt_wnd = 0`, three segments queued, nothing in flight.
-Then 55 rounds of "10 ticks, flushes, deliveries, four reads": the WASK goes out at t = 1500, the window
-re-opens, the three segments are numbered, delivered, read and acknowledged by t = 1510; the run
-hypotheses hold in every state (`runFullChk_sound`, `Rmax = 300`).  (The length hypothesis `hnow` of the
-theorem asks for 3 · (fullStage + 1) > 360 s of clock, which only needs more idle rounds; the worst-case
-bound is dominated by the 120 s probe back-off cap.) -/
+/-! non-vacuity of `C03_resume_partial`, and three scenarios evaluated (the run hypotheses hold in
+every state: `runFairChk_sound`, `Rmax = 300`; the length hypothesis `hnow` of the theorem asks for
+`WaitSnd · (fairStage + 2)` > 120 s of clock per waiting segment, which only needs more idle rounds —
+the worst-case bound is dominated by the 120 s probe back-off cap).
+
+1. B has a receive window of 4; A writes six one-byte messages and flushes while nobody reads: B queues
+   four, buffers two, acknowledges all six with `wnd = 0`; A processes the ACKs (`rmt_wnd = 0`, probe
+   timer armed for t = 1500) and the writer writes three more messages, which stay in the queue.  The
+   reader returns and reads six messages; the WINS this schedules is flushed and LOST.  State:
+   `rmt_wnd = 0`, three segments queued, nothing in flight.  Then 55 rounds of "10 ticks, flushes,
+   deliveries, four reads": the WASK goes out at t = 1500, the window re-opens, the three segments are
+   numbered, delivered, read and acknowledged by t = 1510. -/
 
 def c03ResA : Kcp := Kcp.noDelay (Kcp.new 7) 1 10 2 1
 def c03ResB : Kcp := Kcp.wndSize (Kcp.noDelay (Kcp.new 7) 1 10 2 1) 32 4
@@ -601,22 +607,21 @@ example : SysC.ConsInit c03ResA c03ResB ∧ c03ResA.probe_wait = 0 ∧ c03ResA.i
     (SysC.netRun (Sys.init c03ResA c03ResB 0 1000) c03ResPre).A.rmt_wnd = 0 ∧
     (SysC.netRun (Sys.init c03ResA c03ResB 0 1000) c03ResPre).A.snd_buf = [] ∧
     (SysC.netRun (Sys.init c03ResA c03ResB 0 1000) c03ResPre).A.snd_queue.length = 3 ∧
-    (SysC.netRun (Sys.init c03ResA c03ResB 0 1000) c03ResPre).ba = [] ∧
+    (SysC.netRun (Sys.init c03ResA c03ResB 0 1000) c03ResPre).B.rcv_queue = [] ∧
     (SysC.netRun (Sys.init c03ResA c03ResB 0 1000) c03ResPre).got = [1, 2, 3, 4, 5, 6] ∧
     (∀ ev ∈ c03ResEvs, SysC.isSend ev = false) ∧
     (Sys.run (SysC.netRun (Sys.init c03ResA c03ResB 0 1000) c03ResPre) c03ResEvs).A.waitSnd = 0 ∧
     (Sys.run (SysC.netRun (Sys.init c03ResA c03ResB 0 1000) c03ResPre) c03ResEvs).got = [1, 2, 3, 4, 5, 6, 7, 8, 9] := by
   decide
 set_option maxRecDepth 1000000 in
-example : SysC.RunP (SysC.FullHyp ⟨c03ResA.snd_nxt, c03ResA.conv, 0, 0, 0⟩ 300 10)
+example : SysC.RunP (SysC.FairHyp ⟨c03ResA.snd_nxt, c03ResA.conv, 0, 0, 0⟩ 300 10)
     (SysC.netRun (Sys.init c03ResA c03ResB 0 1000) c03ResPre) c03ResEvs :=
-  SysC.runFullChk_sound ⟨c03ResA.snd_nxt, c03ResA.conv, 0, 0, 0⟩ 300 10 _ _ (by decide)
+  SysC.runFairChk_sound ⟨c03ResA.snd_nxt, c03ResA.conv, 0, 0, 0⟩ 300 10 _ _ (by decide)
 
-/-! the same with congestion control ON (`nocwnd = 0`, fresh `cwnd = 0`): the history first lets the
+/-! 2. the same with congestion control ON (`nocwnd = 0`, fresh `cwnd = 0`): the history first lets the
 congestion window open to 2, the reader stays away until B's queue of four is full and A has learned
-`wnd = 0` with five messages still queued; the reader returns, the WINS is lost, and the run hypotheses
-hold along 58 rounds in which the window re-opens at t = 1500 and everything is delivered, read and
-acknowledged. -/
+`wnd = 0` with five messages still queued; the reader returns, the WINS is lost; along 58 rounds the
+window re-opens at t = 1500 and everything is delivered, read and acknowledged. -/
 
 def c03CcA : Kcp := Kcp.noDelay (Kcp.new 7) 1 10 2 0
 def c03CcB : Kcp := Kcp.wndSize (Kcp.noDelay (Kcp.new 7) 1 10 2 0) 32 4
@@ -634,14 +639,44 @@ example : SysC.ConsInit c03CcA c03CcB ∧ c03CcA.probe_wait = 0 ∧ c03CcA.nocwn
     (SysC.netRun (Sys.init c03CcA c03CcB 0 1000) c03CcPre).A.rmt_wnd = 0 ∧
     (SysC.netRun (Sys.init c03CcA c03CcB 0 1000) c03CcPre).A.snd_buf = [] ∧
     (SysC.netRun (Sys.init c03CcA c03CcB 0 1000) c03CcPre).A.snd_queue.length = 5 ∧
-    (SysC.netRun (Sys.init c03CcA c03CcB 0 1000) c03CcPre).ba = [] ∧
+    (SysC.netRun (Sys.init c03CcA c03CcB 0 1000) c03CcPre).B.rcv_queue = [] ∧
     (∀ ev ∈ c03CcEvs, SysC.isSend ev = false) ∧
     (Sys.run (SysC.netRun (Sys.init c03CcA c03CcB 0 1000) c03CcPre) c03CcEvs).A.waitSnd = 0 ∧
     (Sys.run (SysC.netRun (Sys.init c03CcA c03CcB 0 1000) c03CcPre) c03CcEvs).got = [1, 2, 3, 4, 5, 6, 7, 8, 9] := by
   decide
 set_option maxRecDepth 1000000 in
-example : SysC.RunP (SysC.FullHyp ⟨c03CcA.snd_nxt, c03CcA.conv, 0, 0, 0⟩ 300 10)
+example : SysC.RunP (SysC.FairHyp ⟨c03CcA.snd_nxt, c03CcA.conv, 0, 0, 0⟩ 300 10)
     (SysC.netRun (Sys.init c03CcA c03CcB 0 1000) c03CcPre) c03CcEvs :=
-  SysC.runFullChk_sound ⟨c03CcA.snd_nxt, c03CcA.conv, 0, 0, 0⟩ 300 10 _ _ (by decide)
+  SysC.runFairChk_sound ⟨c03CcA.snd_nxt, c03CcA.conv, 0, 0, 0⟩ 300 10 _ _ (by decide)
+
+/-! 3. a receive window of ONE segment (`wedgeB`): every arrival fills B's queue until the next read, so
+"B's queue is never full" (`SysC.runFullChk`) fails along this run while the reader condition holds.  A
+writes three messages and flushes, B takes the first and drops the other two (out of window), its ACK
+carries `wnd = 0`; a fourth message is queued; the reader reads; the WINS is lost.  State: `rmt_wnd = 0`,
+one segment outstanding, one queued.  Along 25 rounds the timer of the outstanding segment fires at
+t = 1200 and everything is delivered, read and acknowledged. -/
+
+def c03W1Pre : List SysC.NetEv :=
+  [.fair (.send [1]), .fair (.send [2]), .fair (.send [3]), .fair .flushA, .fair .dlvB, .fair .flushB, .fair .dlvA,
+   .fair (.send [4]), .fair .read, .fair .read, .fair .flushB, .shuffle [] []]
+def c03W1Round : List Sys.Ev :=
+  List.replicate 10 .tick ++ [.flushA, .dlvB, .read, .flushB, .dlvA, .read, .flushA, .dlvB, .read, .flushB, .dlvA]
+def c03W1Evs : List Sys.Ev := (List.replicate 25 c03W1Round).flatten
+
+set_option maxRecDepth 1000000 in
+example : SysC.ConsInit SysC.wedgeA SysC.wedgeB ∧ SysC.wedgeB.rcv_wnd.toNat = 1 ∧
+    SysC.NetNoWrap SysC.wedgeA.snd_nxt (Sys.init SysC.wedgeA SysC.wedgeB 0 1000) c03W1Pre ∧
+    (SysC.netRun (Sys.init SysC.wedgeA SysC.wedgeB 0 1000) c03W1Pre).A.rmt_wnd = 0 ∧
+    (SysC.netRun (Sys.init SysC.wedgeA SysC.wedgeB 0 1000) c03W1Pre).A.waitSnd = 2 ∧
+    (SysC.netRun (Sys.init SysC.wedgeA SysC.wedgeB 0 1000) c03W1Pre).B.rcv_queue = [] ∧
+    (∀ ev ∈ c03W1Evs, SysC.isSend ev = false) ∧
+    SysC.runFullChk SysC.wedgeA.snd_nxt 300 10 (SysC.netRun (Sys.init SysC.wedgeA SysC.wedgeB 0 1000) c03W1Pre) c03W1Evs = false ∧
+    (Sys.run (SysC.netRun (Sys.init SysC.wedgeA SysC.wedgeB 0 1000) c03W1Pre) c03W1Evs).A.waitSnd = 0 ∧
+    (Sys.run (SysC.netRun (Sys.init SysC.wedgeA SysC.wedgeB 0 1000) c03W1Pre) c03W1Evs).got = [1, 2, 3, 4] := by
+  decide
+set_option maxRecDepth 1000000 in
+example : SysC.RunP (SysC.FairHyp ⟨SysC.wedgeA.snd_nxt, SysC.wedgeA.conv, 0, 0, 0⟩ 300 10)
+    (SysC.netRun (Sys.init SysC.wedgeA SysC.wedgeB 0 1000) c03W1Pre) c03W1Evs :=
+  SysC.runFairChk_sound ⟨SysC.wedgeA.snd_nxt, SysC.wedgeA.conv, 0, 0, 0⟩ 300 10 _ _ (by decide)
 
 end KcpVerif.Props
